@@ -224,6 +224,15 @@ def corpus():
                                 {'op': 'taskCall', 'k': 0},
                                 {'op': 'register', 'path': 'a.py', 'line': 1, 'tag': 'w2', 'args': {}},
                                 {'op': 'taskInstall', 'k': 0}, ap(0), ap(0)]},
+        # a task blocked on the lock goes on by itself when the holder is done; its listener argument is evaluated at
+        # its taskCall, before the unregister that follows (was a stale-arrival race in the bench, thorough seed 0)
+        {'kind': 'seq', 'ops': [_upd('h1', 1, ('a.py', 1, 's1')),
+                                {'op': 'register', 'path': 'b.py', 'line': 10, 'tag': 'w1', 'args': {}},
+                                {'op': 'taskStart', 'i': 1}, {'op': 'taskRead', 'k': 0}, {'op': 'taskCall', 'k': 0},
+                                {'op': 'taskStart', 'i': 0}, {'op': 'taskRead', 'k': 0},
+                                {'op': 'pollFail', 'base': False, 'how': 'garbage'},
+                                {'op': 'taskInstall', 'k': 0}, {'op': 'taskRead', 'k': 0}, {'op': 'taskCall', 'k': 0},
+                                {'op': 'unregister', 'handle': 0}, {'op': 'taskInstall', 'k': 0}, ap(0)]},
         # D14: one tracepoint of the response cannot be interpreted
         {'kind': 'seq', 'ops': [{'op': 'poll', 'nc': False, 'rt': 1, 'ts': 1, 'hash': 'h1', 'tps': [
             {'path': 'a.py', 'line': 1, 'tag': 's1', 'args': {}},
